@@ -16,6 +16,11 @@ or, for the CHAINED configurations (`cfg ... tree:<T>`), a selection TREE in pla
 
 with one replayed selector per selection node (`s<k>=<branch>`, nodes numbered in pre-order, root = 0),
 
+SIBLING CHILDREN (`cfg tsf|tle|tssf|tsx|tsm ...`): the targets a..d are children of node outputs - fields of ONE
+TSB output (tsf; tssf: TSS-valued fields), elements of ONE fixed TSL output (tle), the same field of four
+different TSB outputs (tsx), or two siblings plus two independent sources (tsm); the consumers read TS<Int> /
+TSS<Int> and the rules below apply unchanged (the monitor only adds the sibling features).
+
 STRUCTURED targets (`cfg tsb2|tsb3|tsl2|tsbw2 ...`): every target is the whole output of one node (TSB{x,y},
 TSB{x,y,z}, TSL<TS<Int>,2>; tsbw2: a TSB assembled at wiring time with to_tsb - control), fed by one replay source
 per field (`a.x=5`), so that fields start at different times or never; the consumers read the bundle and print
@@ -54,7 +59,7 @@ import os, re
 from vlib import Case, Stream, BUILD, model_cmd
 
 ID = "C13"
-LEAN_MODULES = ["HgVerif.Props.C13", "HgVerif.Props.C13Chain", "HgVerif.Props.C13Struct"]
+LEAN_MODULES = ["HgVerif.Props.C13", "HgVerif.Props.C13Chain", "HgVerif.Props.C13Struct", "HgVerif.Props.C13Sib"]
 THEOREMS = [
     "HgVerif.RefLink.ref_subscription_inv", "HgVerif.RefLink.ref_subscription_exact",
     "HgVerif.RefLink.ref_same_no_tick", "HgVerif.RefLink.ref_same_link_noop",
@@ -76,6 +81,13 @@ THEOREMS = [
     "HgVerif.RefLink.field_tick_evaluates", "HgVerif.RefLink.first_field_tick_reaches_consumer",
     "HgVerif.RefLink.structured_retarget_samples", "HgVerif.RefLink.chain_struct_inv",
     "HgVerif.RefLink.chain_struct_equals_resolved",
+    # designations = (output, path): sibling children of one output (Props/C13Sib.lean)
+    "HgVerif.RefLink.Desig.code_inj", "HgVerif.RefLink.selectEq_sameDesig", "HgVerif.RefLink.cycleEq_sameDesig",
+    "HgVerif.RefLink.desig_subscription_exact", "HgVerif.RefLink.desig_retarget_samples",
+    "HgVerif.RefLink.chain_desig_retarget_samples", "HgVerif.RefLink.sibling_ticks_silent",
+    "HgVerif.RefLink.desig_reads_designated_child", "HgVerif.RefLink.retarget_samples_under_sameDesig",
+    "HgVerif.RefLink.path_blind_select_noop", "HgVerif.RefLink.path_blind_sibling_retarget_silent",
+    "HgVerif.RefLink.path_blind_equality_refuted",
 ]
 CXX_TARGETS = ["hgv_ref"]
 RULE = ("graphs replay(sel),replay(a),replay(b)[,replay(c)] -> if_then_else|if_cmp|a selection TREE of if_then_else/if_cmp/"
@@ -85,7 +97,10 @@ RULE = ("graphs replay(sel),replay(a),replay(b)[,replay(c)] -> if_then_else|if_c
         "-> 1-3 consumers + record, shapes TS<Int>/TSS<Int>/TSD<Int,TS<Int>> and STRUCTURED targets (whole node outputs "
         "TSB{x,y} / TSB{x,y,z} / TSL<TS<Int>,2>, control: TSB{x,y} assembled with to_tsb; one replay source per field, "
         "fields start at independent times incl. never; flat and chained selection; every 3-cycle history over "
-        "{no selector,a,b} x {nothing, a.x, b.y, a.y+b.x ticks}), histories of 3-14 cycles built from the "
+        "{no selector,a,b} x {nothing, a.x, b.y, a.y+b.x ticks}); SIBLING CHILDREN as targets: a..d = fields of ONE "
+        "TSB{x,y,z,w} node output (tsf), elements of ONE TSL<TS<Int>,4> output (tle), TSS fields of one TSB (tssf, "
+        "control), field x of four different TSB outputs (tsx, control), two siblings + two independent sources (tsm), "
+        "same flat / if_cmp / tree generators and every 3-cycle history, histories of 3-14 cycles built from the "
         "named timing scenarios plus random cycles, and every history of length 3 (quick) / 4 (thorough) over "
         "{no selector, sel=a, sel=b} x {a ticks} x {b ticks}, and every history of length 3 over i(i(a,b),c) x "
         "{each selector silent|branch} x {no target, all targets tick}; a case is non-trivial when it contains a retarget to a "
@@ -101,6 +116,9 @@ TRUSTED = ["contract-level model: REF output = optional target id, one link per 
            "apply_output_to_from_ref_non_peered) is selectS; bundle validity = some field valid, evaluation = some "
            "field link scheduled; the harness nodes hgv_make_* (copy a ticking field source into the output field) "
            "and hgv_target_obs are trusted",
+           "sibling children: a designation (output, path) is target number out*4+path (injective); reference "
+           "equality is a parameter of the selection operator (selectEq), the code's equality gives select; the harness "
+           "producer nodes hgv_make_f4 / _l4 / _ss4 (copy what ticked into the child) are trusted",
            "chained references: one nodeStep per selection operator and cycle, bottom-up (rank order is C01's); a REF "
            "handed through a nested_ graph is modelled as transparent",
            "the engine part of the model is three phases per cycle (targets, selector, consumers) - rank order and "
@@ -146,7 +164,10 @@ LEVEL_TEXT = ("Kernel-checked for ALL retarget/tick histories of the contract-le
               "in every reachable state, so every field read is the current target's (valid or not), ticks of fields "
               "of other targets evaluate nobody, a tick - also the first ever - of a field of the current target "
               "evaluates every consumer with that field modified, a retarget samples every valid field; also below "
-              "selection trees. The model is tied to the code by running the real "
+              "selection trees. Designations are (output, path): a consumer is subscribed to a child iff the "
+              "reference designates that output AND that path, a retarget between sibling children of one output "
+              "samples like any other, and comparing references by output only (seeded s87) is refuted by a "
+              "kernel-checked counter-witness. The model is tied to the code by running the real "
               "operators and consumers on generated histories."
               ' Structured targets (Props/C13Struct.lean, streams structured*; whole TSB / TSL node outputs behind a reference, flat or below a selection tree): in every reachable state field link (c,f) is subscribed to field f of the current target and to nothing else, every field read equals the field of the designated target after any retarget whether or not that field ever ticked (structured_fields_follow_target), ticks of unselected targets are silent, the first tick of a field reaches the consumer, a retarget samples every valid field.')
 LEVEL_NOTE = ("PARTIAL by design: the model is the linking contract (linking_strategies.rst 'Sampled rebinds' + the "
@@ -268,8 +289,17 @@ class GenTarget:
         self.items = {}
 
 
+# sibling-children shapes: the targets are children of node outputs; the consumers read the base shape.
+#   group(letter index) = the output the child belongs to (same group = siblings: what seeded defect s87 confuses)
+SIB = {"tsf": "ts", "tle": "ts", "tsx": "ts", "tsm": "ts", "tssf": "tss"}
+SIB_GROUP = {"tsf": [0, 0, 0, 0], "tle": [0, 0, 0, 0], "tssf": [0, 0, 0, 0], "tsx": [0, 1, 2, 3], "tsm": [0, 0, 1, 2]}
+SIB_PICK = ["tsf", "tsf", "tsf", "tle", "tle", "tle", "tsm", "tsm", "tsx", "tssf"]
+
+
 def gen_delta(rng, shape, tg, hint=None):
     """A replayable delta token for target state `tg` (tracked naively; only used to keep deltas effective)."""
+    noop_ok = shape != "tssf"      # the producer node copies added / removed: a set delta without effect would not tick
+    shape = SIB.get(shape, shape)
     if shape == "ts":
         return str(rng.randint(-9, 99))
     present = sorted(tg.items)
@@ -287,7 +317,7 @@ def gen_delta(rng, shape, tg, hint=None):
         if shape == "tsd" and present and rng.random() < 0.35:
             mods = [k for k in rng.sample(present, 1) if k not in rems]
     noop = []
-    if rng.random() < 0.07:          # an element without effect: add a present key / remove an absent one
+    if noop_ok and rng.random() < 0.07:          # an element without effect: add a present key / remove an absent one
         if present and rng.random() < 0.5 and shape == "tss":
             cand = [k for k in present if k not in rems]
             if cand:
@@ -363,8 +393,8 @@ def random_cycles(rng, letters, n, cur=None):
     return out
 
 
-def gen_case(rng, idx, maxlen):
-    shape = rng.choice(["ts", "ts", "tss", "tss", "tss", "tsd", "tsd", "tsd"])
+def gen_case(rng, idx, maxlen, sib=False):
+    shape = rng.choice(SIB_PICK) if sib else rng.choice(["ts", "ts", "tss", "tss", "tss", "tsd", "tsd", "tsd"])
     ncons = rng.choice([1, 2, 2, 3, 3])
     stage = rng.choice(["direct", "direct", "direct", "pass", "inner", "innerref"])
     cmp = rng.random() < 0.25
@@ -554,8 +584,8 @@ def render_chain(rng, idx, shape, ncons, stage, text, abstract):
     return Case(lines)
 
 
-def gen_chain_case(rng, idx, maxlen):
-    shape = rng.choice(["ts", "ts", "ts", "tss", "tss", "tsd", "tsd"])
+def gen_chain_case(rng, idx, maxlen, sib=False):
+    shape = rng.choice(SIB_PICK) if sib else rng.choice(["ts", "ts", "ts", "tss", "tss", "tsd", "tsd"])
     ncons = rng.choice([1, 2, 2, 3])
     stage = rng.choice(["direct", "direct", "direct", "direct", "pass", "inner", "innerref"])
     if rng.random() < 0.7:
@@ -777,6 +807,16 @@ def streams(rng, tier, seed):
     out += [Stream("structured", EXE, model_cmd("C13"), struct, timeout=600 if quick else 3600),
             Stream("small-scope-structured", EXE, model_cmd("C13"),
                    exhaustive_struct(rng, "tsb2", 3, 600000, [(), (ax,), (by,), (ay, bx)]))]
+    # sibling children of one output as targets (and the controls): flat, if_cmp, trees; every 3-cycle history
+    n_sib = 450 if quick else 12000
+    sib = [gen_case(rng, 900000 + i, maxlen, sib=True) for i in range(n_sib)] + \
+          [gen_chain_case(rng, 950000 + i, maxlen + 2, sib=True) for i in range(n_sib * 2 // 3)]
+    if quick:
+        exh_sib = rng.sample(exhaustive(rng, ["tsf", "tle"], 3, 1100000), 500)
+    else:
+        exh_sib = exhaustive(rng, ["tsf"], 4, 1100000) + exhaustive(rng, ["tle", "tsm", "tssf", "tsx"], 3, 1200000)
+    out += [Stream("siblings", EXE, model_cmd("C13"), sib, timeout=600 if quick else 3600),
+            Stream("small-scope-siblings", EXE, model_cmd("C13"), exh_sib, timeout=600 if quick else 3600)]
     if not quick:
         singles = [(), (ax,), (ay,), (bx,), (by,), (ax, ay, bx, by)]
         out += [Stream("small-scope-structured-3", EXE, model_cmd("C13"),
@@ -1049,6 +1089,7 @@ def walk(stream, case, out):
     strict = stream == "strict-delta"
     bad, feats = [], set()
     shape, ncons, stage, cmp = "ts", 1, "direct", False
+    group = None
     tree, chained = FLAT[False], False
     tg, sel, cyc, ever_sel = [Ref(), Ref()], None, 0, set()
     conds, desig = {}, [None] * len(tree.nodes)
@@ -1069,16 +1110,18 @@ def walk(stream, case, out):
             continue
         if w[0] == "case":
             shape, ncons, stage, cmp = "ts", 1, "direct", False
+            group = None
             tree, chained = FLAT[False], False
             reset()
             continue
         if w[0] == "cfg":
             if o == "ok":
-                shape, ncons, stage = w[1], int(w[2]), w[3]
+                shape, ncons, stage = SIB.get(w[1], w[1]), int(w[2]), w[3]
+                group = SIB_GROUP.get(w[1])
                 cmp = len(w) > 4 and w[4] == "cmp"
                 chained = len(w) > 4 and w[4].startswith("tree:")
                 tree = tree_of(w[4][5:]) if chained else FLAT[cmp]
-                feats.update(["shape=" + shape, "consumers=%d" % ncons, "stage=" + stage])
+                feats.update(["shape=" + w[1], "consumers=%d" % ncons, "stage=" + stage])
                 if chained:
                     kinds = "".join(sorted({n.kind for n in tree.nodes} - {"l"}))
                     feats.update(["selector=tree", "tree-depth=%d" % tree.depth(), "tree-nodes=" + kinds,
@@ -1140,12 +1183,19 @@ def walk(stream, case, out):
         cur = tg[sel] if sel is not None else None
         sel_ticked = sel in own
         new_valid = cur is not None and cur.valid
+        late = []            # reported after what the consumers saw
         if head.get("r") != ("1" if retarget else "0"):
-            bad.append("[ref-tick] cycle %d: REF output ticked=%s but the selection %s" %
-                       (cyc, head.get("r"), "changed" if retarget else "did not change (same reference must not tick)"))
+            late.append("[ref-tick] cycle %d: REF output ticked=%s but the selection %s" %
+                        (cyc, head.get("r"), "changed" if retarget else "did not change (same reference must not tick)"))
         unselected = [i for i in own if i != sel]
         if unselected and sel is not None and not retarget:
             feats.add("unselected-tick" + ("-only" if not sel_ticked else ""))
+            if group and any(group[i] == group[sel] for i in unselected):
+                feats.add("sibling-of-the-selected-child-ticks")
+        if group and retarget and old is not None and sel is not None:
+            feats.add("retarget-between-siblings" if group[old] == group[sel] else "retarget-between-outputs")
+            if group[old] == group[sel] and not sel_ticked and new_valid:
+                feats.add("sibling-retarget-samples-earlier-value")
         if retarget:
             if not new_valid:
                 feats.add("retarget-to-never-ticked")
@@ -1254,6 +1304,7 @@ def walk(stream, case, out):
             if not ok:
                 bad.append("[record] cycle %d: record through the reference stored %s in a cycle without a tick of the "
                            "selected target or a retarget to a valid target" % (cyc, rs))
+        bad.extend(late)
         # inside the tree: a node's REF output ticks exactly when what it designates changes
         if chained and head.get("n") != str(published):
             bad.append("[publish-count] cycle %d: %s nodes of the tree published a reference, %d changed what they "
@@ -1274,6 +1325,6 @@ def nontrivial(stream, case, out):
     f = walk(stream, case, out)[1]
     return bool(f & {"retarget-to-earlier-ticked", "unselected-tick", "unselected-tick-only", "reselect-same",
                      "retarget-back", "old-target-ticks-in-retarget-cycle", "inner-retarget-root-silent",
-                     "path-changes-target-unchanged", "stale-reference-kept",
-                     "retarget-to-partly-valid-target", "first-tick-of-a-field-after-selection",
+                     "path-changes-target-unchanged", "stale-reference-kept", "retarget-between-siblings",
+                     "sibling-of-the-selected-child-ticks", "retarget-to-partly-valid-target", "first-tick-of-a-field-after-selection",
                      "unselected-field-tick", "unselected-field-tick-only", "retarget-samples-earlier-ticked-field"})
